@@ -90,6 +90,13 @@ CLAIMED = {
         note="The eps-proportional error bound (e.g. 2*eps*dim/|Im z|) is numeric and is NOT decided.",
         technique="guard-set vs use-set comparison under branch-fact canonicalisation; loop-shape rules",
         ref="DESIGN.md §3 C19"),
+    "C15": dict(
+        text="Static reader/writer agreement of MatsubaraContainer4: the affine index map extracted from fill() composed with the one extracted from operator() is the identity on (n1,n2,n3) for every window size N "
+             "(sympy, symbolic in N, same FermionicIndexOffset[B] on both sides); every subscript in the reader is dominated by 0 <= B <= 4N-2 and 0 <= a < rows, 0 <= b < cols (linear entailment against the extents fill() resizes to), "
+             "the writer's loops stay inside those extents, N == 0 is special-cased; every miss returns pSource->value(n1,n2,n3); Vertex4::value == chi + [n1=n3] beta G13 G24 - [n2=n3] beta G14 G23; operator() reads the storage filled from value().",
+        note="Decides transparency structurally for every frequency triple and window size; numerical equality of stored and recomputed values and the caller's choice of G13..G23 are not decided.",
+        technique="extraction and symbolic composition of affine index maps (sympy) + linear-arithmetic entailment of bounds over CFG branch facts",
+        ref="DESIGN.md §3 C15"),
 }
 
 NOT_YET = {}
